@@ -91,6 +91,54 @@ def search(chk, n):
                              {"d": d, "N": N, "nenv": nenv, "perm": perm, "seed": chk.seed, "iteration": it})
 
 
+def caps_search(chk, n):
+    """compute_caps(): the cap of step k closes the environment's future - the transformed MPO tensors of the steps k..N-1
+    contracted with the trace on both system legs (exact integers; SimpleProcessTensor and its file-backed twin)"""
+    import tempfile, os, shutil
+    rng = chk.rng
+    tmp = tempfile.mkdtemp(prefix="c03_")
+    try:
+        for it in range(n):
+            d = rng.choice([1, 2, 2])
+            d2 = d * d
+            N = rng.randint(1, 4)
+            p = rand_intpt(rng, d, N, maxbond=3, transforms=rng.random() < 0.6, lo=-2, hi=2, last_trivial=True)
+            tr = np.eye(d).reshape(-1) / np.sqrt(float(d))          # input: maximally mixed, output: traced (1/sqrt(d) on each leg)
+            want = [np.array([1.0 + 0j])]
+            for k in reversed(range(N)):
+                m4 = mpo_transformed(np.array(p.mpos[k]), p.tin, p.tout)
+                want.insert(0, np.einsum("abio,b,i,o->a", m4, want[0], tr, tr))
+            info = {"kind": "compute_caps", "d": d, "N": N, "ranks": [x.ndim for x in p.mpos], "transforms": p.tin is not None}
+            for which in ("simple", "file"):
+                try:
+                    pt = p.build()
+                    if which == "file":
+                        fn = os.path.join(tmp, f"caps_{it}.hdf5")
+                        pt.export(fn, overwrite=True)
+                        pt = oqupy.process_tensor.FileProcessTensor("read", fn)
+                        # a read-mode file cannot be written: recompute on a write-mode copy
+                        pt.close()
+                        ft = oqupy.process_tensor.FileProcessTensor("overwrite", fn, d, dt=None, transform_in=p.tin, transform_out=p.tout)
+                        for k, m in enumerate(p.mpos):
+                            ft.set_mpo_tensor(k, m)
+                        pt = ft
+                    pt.compute_caps()
+                    got = [np.array(pt.get_cap_tensor(k)) for k in range(N + 1)]
+                    if which == "file":
+                        pt.close()
+                except Exception as ex:
+                    chk.fail("compute-caps-raises:" + which, f"compute_caps() of a {which} process tensor (ranks {info['ranks']}, transforms {info['transforms']}) raises {ex!r}", info)
+                    continue
+                chk.search_cases += 1
+                chk.count("compute_caps_" + which)
+                if len(got) != len(want) or any(g.shape != w.shape or not np.allclose(g, w, rtol=1e-12, atol=1e-12) for g, w in zip(got, want)):
+                    chk.fail("compute-caps-wrong:" + which + (":rank3" if 3 in info["ranks"] else ":rank4") + (":transforms" if info["transforms"] else ""), f"compute_caps() of a {which} process tensor (ranks {info['ranks']}, transforms {info['transforms']}) does not give the "
+                             "trace closure of the remaining steps", dict(info, storage=which))
+            chk.case(info, ("caps", d, N, str(info["ranks"]), info["transforms"], it))
+    finally:
+        shutil.rmtree(tmp, ignore_errors=True)
+
+
 def sum_of_baths(chk, n):
     """two baths with the same coupling operator = one bath with the summed spectral density"""
     rng = chk.rng
@@ -167,6 +215,7 @@ def run(chk):
         if got != exp:
             chk.disagree("compute_dynamics", {"meta": m, "impl": exp[:60], "model": (got or [])[:60]})
 
+    caps_search(chk, 30 if chk.tier == "thorough" else 10)
     search(chk, 150 if (thorough or chk.disagreements or chk.broken) else 40)
     sum_of_baths(chk, 8 if (thorough or chk.disagreements or chk.broken) else 2)
     return chk.finish(
